@@ -10,6 +10,8 @@ package hack
 //@ pure func decl(S seq[byte]) int = S[3]*256 + S[4]
 //@ pure func complete(S seq[byte]) bool = hdrOK(S) && len(S) >= 5+decl(S)
 
+//@ globalinv [C04:sentinel-error-set] ErrIncompleteClientHello != nil
+
 //@ -- Representation invariant. winv is the weaker form that holds between the
 //@ -- append in hijackClientHello and the truncation in hasCompleteClientHello.
 //@ pure func inv(c *HijackClientHelloConn) bool = c.expectedLen >= 0 && (c.expectedLen == 0 ==> c.buf.view == delivered(c.tlsConn)) && (c.expectedLen != 0 ==> hdrOK(delivered(c.tlsConn)) && c.expectedLen == 5+decl(delivered(c.tlsConn)) && c.buf.view == delivered(c.tlsConn)[:min(len(delivered(c.tlsConn)), c.expectedLen)])
@@ -31,7 +33,6 @@ package hack
 //@ func (*HijackClientHelloConn).tryParseClientHello
 //@   props C04,C10
 //@   requires c != nil && winv(c)
-//@   requires ErrIncompleteClientHello != nil
 //@   assigns c.buf.view, c.expectedLen
 //@   ensures [C04:inv] inv(c)
 //@   ensures [C04:nil-iff-complete] result == nil <==> complete(delivered(c.tlsConn))
@@ -43,7 +44,6 @@ package hack
 //@ func (*HijackClientHelloConn).GetClientHello :: c -> rec, err
 //@   props C04,C10
 //@   requires c != nil && inv(c)
-//@   requires ErrIncompleteClientHello != nil
 //@   assigns c.buf.view, c.expectedLen
 //@   ensures [C04:inv] inv(c)
 //@   ensures [C04:reported-iff-complete] err == nil <==> complete(delivered(c.tlsConn))
@@ -53,7 +53,6 @@ package hack
 //@ func (*HijackClientHelloConn).Read :: c, b -> n, err
 //@   props C04,C10
 //@   requires c != nil && inv(c)
-//@   requires ErrIncompleteClientHello != nil
 //@   assigns post(b), delivered(c.tlsConn), c.buf.view, c.expectedLen
 //@   ensures [C04:inv] inv(c)
 //@   ensures [C04:transparent] 0 <= n && n <= len(b) && delivered(c.tlsConn) == old(delivered(c.tlsConn)) ++ post(b)[:n]
